@@ -106,6 +106,8 @@ package socket
 //@ trusted getProto
 //@   modifies nothing
 
+//@ frameset msgAll(m *message) = m.serviceMethod, m.status, m.body, m.newBodyFunc, m.ctx, m.size, m.seq, m.mtype, m.bodyCodec, fields(m.meta), allelems(type(utils.argsKV)), fields(m.xferPipe), allelems(type(xfer.XferFilter))
+
 // ---- C15: decoding never writes into a shared status ------------------------
 // A message handed to Unpack carries no status yet or one of its own (the
 // framework hands in a cleaned context message / a fresh pooled message).
@@ -145,6 +147,8 @@ package socket
 
 //@ func (*socket).ReadMessage
 //@   property C15
+//@   flags libframe frame-unchecked
+//@   modifies msgAll(as(message, type(*message))), lockset, ghost.appendFailed, ghost.maxAlloc
 //@   requires msgOwnStatus(as(message, type(*message)))
 
 // ---- C06: the size check dominates every allocation ---------------------------
